@@ -387,8 +387,15 @@ impl<T: CountMinValue> CountMinSketch<T> {
         }
 
         sketch.total_weight = read_value(&mut cursor, "total_weight")?;
+        // the total is the sum of the absolute weights: no counter can exceed it in magnitude
+        let total = sketch.total_weight.to_f64();
         for count in &mut sketch.counts {
             *count = read_value(&mut cursor, "counts")?;
+            if !(count.to_f64().abs() <= total) {
+                return Err(Error::deserial(
+                    "corrupted: counter exceeds the total weight",
+                ));
+            }
         }
         Ok(sketch)
     }
